@@ -34,6 +34,9 @@ RULE = (
     "nothing. Distinct by history shape (step kinds + setting names + nesting)."
     " Context engine ids / names also of zero octets only, with a leading zero octet, of ASCI"
     "I digits."
+    " Blocks are left by an ordinary exception, a BaseException subclass and asyncio.Cancelle"
+    "dError in turn; \"reboot\" steps make the next authenticated request go out twice (report,"
+    " re-send), both under the current settings."
 )
 ASSUMPTIONS = [
     "a configure() inside a reconfigure() block is undone when the block exits (the block restores the snapshot taken at entry)",
